@@ -82,6 +82,7 @@ PROGRAMS = {
     "tieE": [(0, "N"), (D, "E")],
     "late": [(0, "N"), (D, "N"), (D, "N"), (0, "C")],
     "tie2": [(0, "N"), (D, "N"), (D / 2, "C")],      # like tie, but the source lives on for a while after the racing element
+    "tie3": [(0, "N"), (D, "N"), (D / 2, "N"), (0, "C")],  # ... and supersedes the racing element inside its due time
 }
 
 
@@ -246,11 +247,11 @@ class H:
 def plan(tier):
     """(op, scheduler kind, program) triples; quick keeps one racing program per operator"""
     q = {
-        "debounce": [("timeout", "tie"), ("timeout", "half")],
+        "debounce": [("timeout", "tie"), ("timeout", "tie3")],
         "throttle_with_mapper": [("timeout", "tie")],
         "sample": [("timeout", "tie")],
-        "timeout": [("timeout", "tie"), ("eventloop", "tieC")],
-        "timeout_other": [("timeout", "tie")],
+        "timeout": [("timeout", "tie2"), ("eventloop", "tieC")],
+        "timeout_other": [("timeout", "tie2")],
         "timeout_with_mapper": [("timeout", "tie2")],
         "take_with_time": [("timeout", "tie")],
         "skip_with_time": [("timeout", "tie")],
